@@ -12,6 +12,8 @@ use serde_json::Value;
 #[derive(Clone, Debug, Hash)]
 pub struct C09Case {
     pub w: World,
+    /// reach the store through the registry functions instead of `Store`
+    pub via_registry: bool,
 }
 
 /// joined shapes over-represented: titles a-b / a b / ab against queries ab / a b with 0-1 typos
@@ -87,13 +89,21 @@ pub fn decode(src: &mut Source) -> Box<dyn Case> {
         w
     };
     w.markers = (SL.to_string(), SR.to_string());
-    Box::new(C09Case { w })
+    // the registry is also handed markers with white space / control characters around the sentinels:
+    // they are part of the configured markers, not decoration to be cleaned up
+    let via_registry = src.chance(1, 6);
+    if src.chance(1, 6) {
+        let pad = *src.pick(&[" ", "\u{a0}", "\t", "\u{1b}"]);
+        w.markers = (format!("{}{}", SL, pad), format!("{}{}", pad, SR));
+    }
+    Box::new(C09Case { w, via_registry })
 }
 
 impl Case for C09Case {
     fn describe(&self) -> Value {
         let mut d = self.w.describe();
-        d["markers"] = serde_json::json!("sentinels U+E000/U+E001");
+        d["markers"] = serde_json::json!(format!("sentinels U+E000/U+E001, as configured: ({:?}, {:?})", self.w.markers.0, self.w.markers.1));
+        d["via_registry"] = serde_json::json!(self.via_registry);
         d
     }
     fn key(&self) -> u64 {
@@ -101,11 +111,23 @@ impl Case for C09Case {
     }
     fn check(&self, ctx: &mut Ctx) -> Result<(), Violation> {
         let w = &self.w;
-        let store = w.store();
+        let store = w.backend(self.via_registry);
         let l = lang_of(w.lang);
         let toks: Vec<TextOwn> = w.recs.iter().map(|r| tokenize_record(&r.1, &l)).collect();
+        // padded markers: the padding must come back exactly; it is then removed for the span walk
+        let (ml, mr) = (w.markers.0.clone(), w.markers.1.clone());
+        let padded = ml.chars().count() > 1;
         for q in &w.queries {
-            let hits = search(&store, q);
+            let mut hits = store.search(q);
+            if padded {
+                for h in hits.iter_mut() {
+                    let opens = h.1.matches(SL).count();
+                    if h.1.matches(ml.as_str()).count() != opens || h.1.matches(mr.as_str()).count() != h.1.matches(SR).count() {
+                        return ctx.fail("markers-altered", "", format!("lang={} query={:?} configured markers ({:?}, {:?}) but the returned title is {:?}", w.lang, q, ml, mr, h.1));
+                    }
+                    h.1 = h.1.replace(ml.as_str(), &SL.to_string()).replace(mr.as_str(), &SR.to_string());
+                }
+            }
             let has_alnum = q.chars().any(|c| c.is_alphanumeric());
             for (id, out) in &hits {
                 ctx.count("hits", 1);
@@ -157,6 +179,8 @@ impl Case for C09Case {
                 }
                 ctx.label_if(p.spans.len() >= 2, "multi-span");
                 ctx.label_if(!has_alnum, "empty-query-hit");
+                ctx.label_if(self.via_registry, "via-registry");
+                ctx.label_if(padded, "padded-markers");
                 ctx.label_if(t.words.len() > 20 && p.spans.iter().any(|&(st, _, _)| t.words.iter().position(|wd| wd.slice.0 == st).map(|i| i >= 20).unwrap_or(false)), "span-beyond-20th-word");
                 let inside = p.spans.iter().any(|&(st, emin, emax)| t.words.iter().any(|wd| wd.slice.0 == st && emax < wd.slice.1 && emin < wd.slice.1));
                 if p.spans.len() >= 2 || inside {
